@@ -78,6 +78,12 @@ Theorem sweep_pairs_exact :
 Proof. intros skip boxes Hs Hv. exact (sweep_pairs_spec skip Hs boxes Hv). Qed.
 Print Assumptions sweep_pairs_exact.
 
+(* ... and each such pair is reported exactly once (no hypothesis on the boxes). *)
+Theorem sweep_pairs_once :
+  forall (skip : Z -> Z -> bool) (boxes : list box2), NoDup (sweep_pairs skip boxes).
+Proof. exact sweep_pairs_nodup. Qed.
+Print Assumptions sweep_pairs_once.
+
 (* Polygon k-d tree: QueryTwoDTree on the tree BuildTwoDTree builds from ANY
    point list reports exactly the points inside the (closed) rectangle, each as
    often as it occurs. (Stated for the recursive form of the traversal; the
